@@ -68,17 +68,17 @@ def cb_parts(cb, op, inty, site):
     raise ValueError(cb)
 
 
-def shaped(params, body, ret, shape, site, fnitems):
+def shaped(params, body, ret, shape, site, fnitems, opidx=0):
     c = f"|{params}| {body}"
-    if shape == "closure" or ret is None:
+    if shape == "closure" or (ret is None and shape not in ("block", "block2")):
         return c
     if shape == "fnpath":
         fnitems.append(f"fn f_{site}({params}) -> {ret} {{ {body} }}")
         return f"f_{site}"
     if shape == "call":
         return f"rt::sem::ret({c})"
-    if shape == "block":
-        return f"{{ {c} }}"
+    if shape in ("block", "block2"):
+        return f"{{ rt::sem::cap({site}, {opidx}); {c} }}"
     if shape == "paren":
         return f"({c})"
     if shape == "rettype":
@@ -99,6 +99,8 @@ def operand_text(item, site, st, fnitems, twin=False):
     if op == "dot":
         return DOT[arg]
     if op in ("or", "chain", "zip"):
+        if item.get("shape") == "block":
+            return f"{{ rt::sem::cap({site}, 0); {VAL[arg]} }}"
         return VAL[arg]
     if op == "collect":
         return f"Vec<{ELEM[inty]}>"
@@ -107,10 +109,12 @@ def operand_text(item, site, st, fnitems, twin=False):
     if op in ("enumerate", "flatten"):
         return None
     p, b, r = cb_parts(arg, op, inty, site)
-    c = shaped(p, b, r, item.get("shape", "closure"), site if not twin else f"t{site}", fnitems)
+    sh = item.get("shape", "closure")
     if op in ("fold", "try_fold"):
-        return f"0i64, {c}"
-    return c
+        c = shaped(p, b, r, sh, site if not twin or sh in ("block", "block2") else f"t{site}", fnitems, opidx=1)
+        init = f"{{ rt::sem::cap({site}, 0); 0i64 }}" if sh == "block2" else "0i64"
+        return f"{init}, {c}"
+    return shaped(p, b, r, sh, site if not twin or sh in ("block", "block2") else f"t{site}", fnitems)
 
 
 def macro_chain(chain, fnitems):
@@ -128,14 +132,69 @@ def macro_chain(chain, fnitems):
     return " ".join(parts)
 
 
-def twin_expr(nodes, e, st, fnitems):
+def hoist(text, site, lets):
+    """C11 in the twin: every `{ rt::sem::cap(..); value }` block becomes a `let` evaluated at the start of its step"""
+    out = []
+    i = 0
+    k = 0
+    mark = "{ rt::sem::cap("
+    while i < len(text):
+        if text.startswith(mark, i):
+            depth = 0
+            j = i
+            while True:
+                if text[j] == "{":
+                    depth += 1
+                elif text[j] == "}":
+                    depth -= 1
+                    if depth == 0:
+                        break
+                j += 1
+            name = f"__c{site}_{k}"
+            k += 1
+            lets.append(f"let {name} = {text[i:j + 1]};")
+            out.append(name)
+            i = j + 1
+        else:
+            out.append(text[i])
+            i += 1
+    return "".join(out)
+
+
+def twin_stmts(chain, st, fnitems):
+    """the documented meaning, step by step: captures of the step first (in position order), then the step's method chain"""
+    items = chain["items"]
+    nodes = chain["tree"]
+    stmts = []
+    cur = "x"
+    k = 0
+    step = 0
+    while k < len(nodes):
+        j = k + 1
+        while j < len(nodes) and not items[nodes[j]["site"] - 1]["deferred"]:
+            j += 1
+        lets = []
+        expr = twin_expr(nodes[k:j], cur, st, fnitems, lets)
+        stmts.extend(lets)
+        step += 1
+        stmts.append(f"let mut __s{step} = {expr};")
+        cur = f"__s{step}"
+        k = j
+    return stmts, cur
+
+
+def twin_expr(nodes, e, st, fnitems, lets=None):
     """the documented plain-Rust meaning: left to right method calls; wrappers as nested closures"""
+    if lets is None:
+        lets = []
+        e = twin_expr(nodes, e, st, fnitems, lets)
+        return ("{ " + " ".join(lets) + " " + e + " }") if lets else e
     for n in nodes:
         op = n["op"]
         site = n["site"]
         if n["wrapped"]:
             param = st[site]["param"]
-            inner = twin_expr(n["inner"], "v", st, fnitems)
+            inner = twin_expr(n["inner"], "v", st, fnitems, lets)
             clo = f"|v| {inner}"
             if op == "inspect":
                 e = f"{{ let __t = {e}; ({clo})(&__t); __t }}"
@@ -144,6 +203,8 @@ def twin_expr(nodes, e, st, fnitems):
             continue
         item = {"op": op, "arg": n["arg"], "shape": n.get("shape", "closure")}
         o = operand_text(item, site, st, fnitems, twin=True)
+        if o is not None:
+            o = hoist(o, site, lets)
         if op == "dot":
             e = f"{e}.{o}"
         elif op == "then":
@@ -264,13 +325,13 @@ def chain_fns(name, chain, variant="join"):
     fin = "rt::sem::drain(r)" if rty is None else "rt::sem::canon(&r)"
     mitems, titems = [], []
     mchain = macro_chain(chain, mitems)
-    texpr = twin_expr(chain["tree"], "x", site_types(chain), titems)
+    tstmts, tlast = twin_stmts(chain, site_types(chain), titems)
     call = f"let r{ann} = {macro_expr(chain, variant, mchain)};"
     hdr = "#[allow(unused_mut, unused_variables, unused_parens, unused_braces, clippy::all)]\n"
     m = (hdr + f"pub fn m_{name}(k: usize) -> Value {{\n" + "".join(f"    {x}\n" for x in mitems) +
          f"    let mut x: {sty} = match k {{ {arms} }};\n    {call}\n    {fin}\n}}\n")
     t = (hdr + f"pub fn t_{name}(k: usize) -> Value {{\n" + "".join(f"    {x}\n" for x in titems) +
-         f"    let mut x: {sty} = match k {{ {arms} }};\n    let r{ann} = {texpr};\n    {fin}\n}}\n")
+         f"    let mut x: {sty} = match k {{ {arms} }};\n" + "".join(f"    {x}\n" for x in tstmts) + f"    let r{ann} = {tlast};\n    {fin}\n}}\n")
     return m, t, len(cases)
 
 
